@@ -215,7 +215,7 @@ def embed(ctx, g2, dims2, which):
 
 def scenarios(tier):
     T = []
-    D = {1: [[1], [2], [3]], 2: [[2, 2], [1, 2]], 3: [[2, 2, 2]]}
+    D = {1: [[1], [2], [3]], 2: [[2, 2], [1, 2]], 3: [[2, 2, 2], [1, 2, 3]]}
     if tier == 'thorough':
         D = {1: [[1], [2], [3], [4]], 2: [[2, 2], [1, 2], [3, 2], [2, 3]], 3: [[2, 2, 2], [1, 2, 2], [2, 2, 3]]}
     grids = scen.ALL if tier == 'thorough' else ['Grid1D', 'CylindricalGrid1D', 'Grid2D', 'PolarGrid2D', 'Grid3D', 'SphericalGrid3D']
